@@ -20,9 +20,12 @@ pub mod checks {
         pub failures: BTreeMap<String, (u64, Vec<Value>)>,   // obligation|features -> (count, first witnesses)
         pub samples: Vec<Value>,
         pub only: Option<(usize, usize)>,
+        /// set when the group could not be compiled against this tree (it calls private functions whose signature changed)
+        pub unavailable: Option<String>,
     }
     impl Report {
         pub fn new(group: &str) -> Self { Report { group: group.to_string(), ..Default::default() } }
+        pub fn unavailable(group: &str, bucket: &str) -> Self { Report { group: group.to_string(), unavailable: Some(bucket.to_string()), ..Default::default() } }
         pub fn fail(&mut self, obligation: &str, features: &[String], w: Value) {
             let key = format!("{}|{}", obligation, features.join(","));
             let e = self.failures.entry(key).or_insert((0, vec![]));
@@ -45,7 +48,7 @@ pub mod checks {
                 let (o, fe) = (it.next().unwrap(), it.next().unwrap_or(""));
                 json!({"obligation": o, "features": fe.split(',').filter(|s| !s.is_empty()).collect::<Vec<_>>(), "count": n, "witnesses": w})
             }).collect();
-            json!({"group": self.group, "evaluations": self.evaluations, "distinct_nontrivial": self.nontrivial, "failures": f, "samples": self.samples})
+            json!({"group": self.group, "evaluations": self.evaluations, "distinct_nontrivial": self.nontrivial, "failures": f, "samples": self.samples, "unavailable": self.unavailable})
         }
     }
 
@@ -709,6 +712,9 @@ pub mod checks {
     fn ptr_seq<T: Queryable>(d: Data<T>) -> Vec<(usize, String)> {
         match d { Data::Ref(p) => vec![(p.inner as *const T as usize, p.path)], Data::Refs(v) => v.into_iter().map(|p| (p.inner as *const T as usize, p.path)).collect(), _ => vec![] }
     }
+    #[cfg(not(feature = "vx_seg"))]
+    pub fn group_descendant(_tier: &str, _seed: u64, _only: Option<(usize, usize)>) -> Report { Report::unavailable("descendant", "vx_seg") }
+    #[cfg(feature = "vx_seg")]
     /// process_descendant.preorder: the container nodes of descendants-or-self, in document pre-order, with their paths
     pub fn group_descendant(tier: &str, seed: u64, only: Option<(usize, usize)>) -> Report {
         let mut rep = Report::new("descendant");
@@ -733,6 +739,9 @@ pub mod checks {
         }
         rep
     }
+    #[cfg(not(feature = "vx_seg"))]
+    pub fn group_selectors(_tier: &str, _seed: u64, _only: Option<(usize, usize)>) -> Report { Report::unavailable("selectors", "vx_seg") }
+    #[cfg(feature = "vx_seg")]
     /// process_selectors: members (multiset) and order (per input node, selectors in written order)
     pub fn group_selectors(tier: &str, seed: u64, only: Option<(usize, usize)>) -> Report {
         let mut rep = Report::new("selectors");
@@ -777,6 +786,9 @@ pub mod checks {
         }
         rep
     }
+    #[cfg(not(feature = "vx_ptr"))]
+    pub fn group_pointer_text(_tier: &str, _seed: u64, _only: Option<(usize, usize)>) -> Report { Report::unavailable("pointer_text", "vx_ptr") }
+    #[cfg(feature = "vx_ptr")]
     /// Pointer::key / Pointer::idx build the RFC 9535 2.7 step for the member name / index they are given
     pub fn group_pointer_text(_tier: &str, _seed: u64, _only: Option<(usize, usize)>) -> Report {
         let mut rep = Report::new("pointer_text");
@@ -806,6 +818,9 @@ pub mod checks {
         rep.samples.push(json!({"parent": "$", "name": "a", "expected": key_path("$", "a")}));
         rep
     }
+    #[cfg(not(feature = "vx_sel"))]
+    pub fn group_name_lookup(_tier: &str, _seed: u64, _only: Option<(usize, usize)>) -> Report { Report::unavailable("name_lookup", "vx_sel") }
+    #[cfg(feature = "vx_sel")]
     /// process_key: the member denoted by the TEXT of a name selector, with the path of that member
     pub fn group_name_lookup(_tier: &str, _seed: u64, _only: Option<(usize, usize)>) -> Report {
         let mut rep = Report::new("name_lookup");
@@ -837,6 +852,9 @@ pub mod checks {
         rep.samples.push(json!({"selector_text": "'a b'", "member": name_of("'a b'")}));
         rep
     }
+    #[cfg(not(feature = "vx_fn"))]
+    pub fn group_regex(_tier: &str, _seed: u64, _only: Option<(usize, usize)>) -> Report { Report::unavailable("regex", "vx_fn") }
+    #[cfg(feature = "vx_fn")]
     /// regex: match = the entire string matches, search = some substring matches, non-strings / invalid patterns -> false
     pub fn group_regex(_tier: &str, _seed: u64, _only: Option<(usize, usize)>) -> Report {
         let mut rep = Report::new("regex");
@@ -866,6 +884,9 @@ pub mod checks {
         rep.samples.push(json!({"subject": "ab", "pattern": "a|b", "match": regex_full("ab", "a|b"), "search": regex_find("ab", "a|b")}));
         rep
     }
+    #[cfg(not(feature = "vx_cmp"))]
+    pub fn group_cmp_struct(_tier: &str, _seed: u64, _only: Option<(usize, usize)>) -> Report { Report::unavailable("cmp_struct", "vx_cmp") }
+    #[cfg(feature = "vx_cmp")]
     /// eq / lt on structured and string operands (the part the Kani harness cannot reach)
     pub fn group_cmp_struct(_tier: &str, _seed: u64, _only: Option<(usize, usize)>) -> Report {
         let mut rep = Report::new("cmp_struct");
@@ -941,6 +962,9 @@ pub mod checks {
         rep.samples.push(json!({"query": "$.elems[?in(@, $.list)]", "doc": docs[1]}));
         rep
     }
+    #[cfg(not(feature = "vx_sel"))]
+    pub fn group_arith(_tier: &str, _seed: u64, _only: Option<(usize, usize)>) -> Report { Report::unavailable("arith", "vx_sel") }
+    #[cfg(feature = "vx_sel")]
     /// index / slice arithmetic on the real functions (counterexample search and replay for C11; mirror sanity)
     pub fn group_arith(tier: &str, _seed: u64, _only: Option<(usize, usize)>) -> Report {
         let mut rep = Report::new("arith");
